@@ -286,13 +286,15 @@ def precompileOptOut : Prog :=
    .write "DeleteOperatorUSDValue", .check "HandleOptedInfo", .write "Set(optedInfo)",
    .write "InitiateOperatorKeyRemovalForChainID"]
 
-/-- x/operator/keeper/slash.go: Slash — `writeFunc()` precedes UpdateOperatorSlashInfo's checks -/
+/-- x/operator/keeper/slash.go: Slash — SlashAssets *and* UpdateOperatorSlashInfo run on the same
+    cache context `cc`; `writeFunc()` is the last statement (after commit b01075b; before it,
+    `writeFunc()` preceded UpdateOperatorSlashInfo's checks: see `slashPreFix` in Props/C09.lean) -/
 def slash : Prog :=
-  [.check "CheckSlashParameter", .openC, .call "SlashAssets", .closeC,
-   -- x/operator/keeper/operator_slash_state.go: UpdateOperatorSlashInfo
+  [.check "CheckSlashParameter", .openC, .call "SlashAssets",
+   -- x/operator/keeper/operator_slash_state.go: UpdateOperatorSlashInfo (on cc)
    .check "AccAddressFromBech32", .check "Has(slashInfoKey)", .check "GetAVSSlashContract",
    .check "SlashContract!=stored", .check "EventHeight>SubmittedHeight", .check "SlashProportion range",
-   .write "Set(slashInfo)"]
+   .write "Set(slashInfo)", .closeC]
 
 /-- x/delegation/keeper/abci.go: EndBlock, one matured record (non-held branch) -/
 def endBlockRecord : Prog :=
